@@ -634,7 +634,8 @@ inductive RunRes (ν : Type) where
   | done (m : Machine ν)
   /-- run-time error; the lines printed before it stay printed -/
   | err (e : Err) (out : List String)
-  | panic (msg : String)
+  /-- panic; what was printed before it stays printed -/
+  | panic (msg : String) (out : List String)
   | timeout
 
 /-- `run_without_cleanup` with a step budget -/
@@ -645,7 +646,7 @@ def run (S : Sem ν) (P : Prog ν) : Nat → Machine ν → RunRes ν
     | .next m' => run S P n m'
     | .halt => .done m
     | .err e => .err e m.out
-    | .panic msg => .panic msg
+    | .panic msg => .panic msg m.out
 
 inductive Outcome (ν : Type) where
   /-- `InterpreterResult::Value` -/
@@ -673,7 +674,7 @@ def interpret (S : Sem ν) (fuel : Nat) (I : Interp ν) (stmts : List (Stmt ν))
          | some v => .value v
          | none => .continue_), m.out)
      | .err e out => (I, .error e, out)
-     | .panic msg => (I, .panic msg, [])
+     | .panic msg out => (I, .panic msg, out)
      | .timeout => (I, .timeout, []))
   | .err e => (I, .error e, [])
   | .panic msg => (I, .panic msg, [])
